@@ -27,7 +27,7 @@ COMPONENTS = {
     'stub': ['user objective', 'PRNG seam (reports the element random.choice picked)', 'joblib', 'time.time', 'uuid1'],
 }
 PROBES_EXPECTED = ['eq_calls', 'identical', 'all_differ', 'share_some_coordinates', 'share_last_coordinate_only_differ_elsewhere',
-                   'generate_calls', 'rejected_duplicates', 'removals_checked', 'identical_vectors_in_pool', 'derived_pairs']
+                   'generate_calls', 'rejected_duplicates', 'removals_checked', 'identical_vectors_in_pool', 'derived_pairs', 'dedup_checked']
 
 
 def hooks(ctx, w, D):
@@ -101,9 +101,14 @@ def hooks(ctx, w, D):
             if list(a.vector) == list(b.vector) and hash(a) != hash(b):
                 ctx.violation('hash_differs', 'Individual.__hash__', 'identical vectors %r hash differently' % (list(a.vector),))
                 return
-            # a design that has been hashed and then moved must hash like its new vector
+            # a design that has been hashed and then moved must hash like its new vector - whether the vector was
+            # replaced (generate, sync) or edited in place (swarm position update)
             h0 = hash(b)
-            b.vector = list(a.vector)
+            if D.dec('work', ('de', key, t, 3), 2):
+                b.vector = list(a.vector)
+            else:
+                for i_ in range(n):
+                    b.vector[i_] = a.vector[i_]
             if hash(b) != hash(a):
                 ctx.violation('hash_differs', 'Individual.__hash__', 'a design hashed at %r and then moved to %r does not hash like a fresh '
                               'design there (%r vs %r): set() cannot de-duplicate them' % (x + delta, list(a.vector), hash(b), hash(a)))
@@ -164,7 +169,24 @@ def hooks(ctx, w, D):
                     ctx.violation('hash_differs', 'Individual.__hash__', 'designs with the identical vector %r hash differently: '
                                   'set() cannot de-duplicate them' % (list(vec),))
                     break
-        return orig(population, size)
+        res = orig(population, size)
+        # "set-based de-duplication identifies precisely repeated designs and never discards a distinct one": the pool is
+        # truncated again (pure function) to more than its length - exactly one representative of every distinct vector
+        pool = list(population)
+        if st.get('tr', 0) < 20 and not ctx.violations:
+            st['tr'] = st.get('tr', 0) + 1
+            full = orig(list(pool), len(pool) + 1)
+            want = sorted({tuple(i.vector) for i in pool})
+            got = sorted(tuple(i.vector) for i in full)
+            ctx.check()
+            ctx.probe('dedup_checked')
+            if got != want:
+                twice = sorted({v for v in got if got.count(v) > 1})
+                lost = sorted(set(want) - set(got))
+                ctx.violation('distinct_rejected' if lost else 'hash_differs', 'nondominated_truncate',
+                              'de-duplication of a pool of %d (%d distinct designs) returned %d individuals: repeated designs kept '
+                              'twice %r, distinct designs lost %r' % (len(pool), len(want), len(got), twice[:3], lost[:3]))
+        return res
 
     return dict(eq=eq, generate=generate, pop_acceptance=pop_acceptance, archive_remove=archive_remove, truncate=truncate)
 
